@@ -5,6 +5,7 @@ import (
 	"bytes"
 	"fmt"
 	"go/ast"
+	"go/constant"
 	"go/token"
 	"go/types"
 	"os"
@@ -13,6 +14,7 @@ import (
 	"sort"
 	"strconv"
 	"strings"
+	"sync"
 
 	"golang.org/x/tools/go/ssa"
 )
@@ -27,6 +29,12 @@ type escapeDiag struct {
 	Col  int
 	Text string // e.g. "make([]byte, n - len(m.Raw)) escapes to heap" or "moved to heap: b"
 }
+
+var inlRe = regexp.MustCompile(`^(.*\.go):(\d+):(\d+): inlining call to (.*)$`)
+
+// inlinedAt: file:line -> names of the functions the compiler inlined at a call on that line (same build).
+var inlinedAtMu sync.Mutex
+var inlinedAtByProg = map[*Prog]map[string][]string{}
 
 var escRe = regexp.MustCompile(`^(.*\.go):(\d+):(\d+): (.*(escapes to heap|moved to heap: .*))$`)
 
@@ -48,7 +56,18 @@ func compilerEscapes(p *Prog) ([]escapeDiag, error) {
 	var res []escapeDiag
 	sc := bufio.NewScanner(&out)
 	sc.Buffer(make([]byte, 1<<20), 1<<20)
+	inl := map[string][]string{}
+	defer func() {
+		inlinedAtMu.Lock()
+		inlinedAtByProg[p] = inl
+		inlinedAtMu.Unlock()
+	}()
 	for sc.Scan() {
+		if im := inlRe.FindStringSubmatch(sc.Text()); im != nil {
+			k := strings.TrimPrefix(im[1], "./") + ":" + im[2]
+			inl[k] = append(inl[k], im[4])
+			continue
+		}
 		m := escRe.FindStringSubmatch(sc.Text())
 		if m == nil {
 			continue
@@ -117,7 +136,13 @@ func (fi *funcIndex) at(file string, line int) *ssa.Function {
 func canSucceed(p *Prog, fn *ssa.Function, b *ssa.BasicBlock) bool {
 	idx := errorResultIndex(fn)
 	if idx < 0 {
-		return true
+		// no error result: every return is a success; a block that only leads to a panic is not
+		for x := range blockReach(b) {
+			if _, ok := x.Instrs[len(x.Instrs)-1].(*ssa.Return); ok {
+				return true
+			}
+		}
+		return false
 	}
 	for x := range blockReach(b) {
 		if ret, ok := x.Instrs[len(x.Instrs)-1].(*ssa.Return); ok {
@@ -184,7 +209,6 @@ var amortised = []allocRule{
 	{"", "make([]byte, n - len(m.Raw)) escapes to heap", "grow: extends the message's own retained buffer; no allocation once the buffer has held a message at least as large"},
 	{"(*hmac.hmac).resetTo", "make([]byte, blocksize) escapes to heap", "append(pad[:0], make([]byte, blocksize)...): the compiler extends the retained pad in place when its capacity suffices (steady state)"},
 	{"", "append into retained ", "append into storage retained by the message / destination value: amortised, no allocation once capacity was reached"},
-	{"(MessageIntegrity).AddTo", "HMAC sum into Raw's spare capacity", "the Add that follows extends Raw by 24 bytes, so in steady state (buffer reused for a message at least as large) at least 20 bytes are free behind Raw when the HMAC is summed"},
 }
 
 // errorValueOrStatic: the diagnostic concerns an error value (allocated only when an error is
@@ -286,8 +310,52 @@ func runC20(r *Run) {
 		fn *ssa.Function
 	}
 	var work []diagFn
+	inlinedAtMu.Lock()
+	inl := inlinedAtByProg[p]
+	inlinedAtMu.Unlock()
 	for _, d := range diags {
 		if fn := fi.at(d.File, d.Line); fn != nil {
+			// the copy of a diagnostic that the compiler repeats at a call site where it inlined the
+			// allocating function: judged where the allocation is written - in the callee when that is hot
+			// itself, or, when the normalisation merged the callee's statements into fn, on those statements
+			if names := inl[fmt.Sprintf("%s:%d", d.File, d.Line)]; len(names) > 0 {
+				var orig []escapeDiag
+				for _, d2 := range diags {
+					if d2.Text != d.Text || d2.File == d.File && d2.Line == d.Line {
+						continue
+					}
+					g := fi.at(d2.File, d2.Line)
+					if g == nil || g.Name() == "_" {
+						// the callee's declaration is gone from the normalised program: its statements are in fn
+						for _, h := range byLine[fmt.Sprintf("%s:%d", d2.File, d2.Line)] {
+							if h == fn {
+								orig = append(orig, d2)
+								break
+							}
+						}
+						continue
+					}
+					if g == fn {
+						continue
+					}
+					for _, nm := range names {
+						if strings.HasSuffix(nm, g.Name()) {
+							orig = append(orig, d2)
+							break
+						}
+					}
+				}
+				if len(orig) > 0 {
+					for _, d2 := range orig {
+						for _, g := range byLine[fmt.Sprintf("%s:%d", d2.File, d2.Line)] {
+							if g == fn {
+								work = append(work, diagFn{d2, fn})
+							}
+						}
+					}
+					continue
+				}
+			}
 			work = append(work, diagFn{d, fn})
 			continue
 		}
@@ -333,6 +401,21 @@ func runC20(r *Run) {
 		if ok, why := errorValueOrStatic(p, d.Text); ok {
 			rc.Instance(fnName(fn)+"|"+d.Text, false, map[string]string{"fn": fnName(fn), "site": d.Text, "class": why})
 			continue
+		}
+		if strings.HasPrefix(d.Text, "make(") {
+			// growth: every make the diagnostic can refer to runs only after a failed capacity test of a
+			// retained buffer, and its result becomes that buffer
+			mks := growthMakes(p, fn, d.File, d.Line)
+			grown := len(mks) > 0
+			for _, mk := range mks {
+				if !capInsufficient(mk.Block(), nil) || !storedIntoRetained(mk) {
+					grown = false
+				}
+			}
+			if grown {
+				rc.Instance(fnName(fn)+"|"+d.Text, true, map[string]string{"fn": fnName(fn), "site": d.Text, "class": "amortised", "reason": "allocated only after the capacity test of the retained buffer failed, and installed as that buffer: no allocation once the buffer has held a value at least as large"})
+				continue
+			}
 		}
 		report(fn, pos, d.Text, "heap allocation on a hot path (compiler escape analysis): decoding, lookups, getters/checkers and rebuilding must not allocate in steady state")
 	}
@@ -388,6 +471,10 @@ func runC20(r *Run) {
 		for _, fn := range hot {
 			eachInstr(fn, func(b *ssa.BasicBlock, i int, in ssa.Instruction) {
 				if c, ok := in.(*ssa.Call); ok && callsFn(c, nh) && canSucceed(p, fn, b) && isSpareCapacityView(c.Call.Args[2]) {
+					if why, ok := scratchCoveredByAdd(p, fn, c); ok {
+						rc.Instance(fnName(fn)+"|HMAC sum into Raw's spare capacity", true, map[string]string{"fn": fnName(fn), "site": "HMAC sum into Raw's spare capacity", "class": "amortised", "reason": why})
+						return
+					}
 					report(fn, instrPos(c), "HMAC sum into Raw's spare capacity", "the 20-byte digest is appended behind Raw: allocates whenever cap(Raw)-len(Raw) < 20")
 				}
 			})
@@ -741,6 +828,12 @@ func checkRetained(r *Run, rc *RuleCtx, hot []*ssa.Function) {
 			case !der:
 				class = "replaced by " + exprCanon(st.Val)
 			}
+			grown := false
+			if !der && !isNilConst(st.Val) && fv != nil && capInsufficient(b, fv) {
+				// a larger buffer installed only when the capacity test of this very field failed: growth
+				grown = true
+				class = "grown (capacity test failed)"
+			}
 			// derived from itself but cut from the front: the bytes before the new start are out of reach for good
 			frontCut := false
 			if der && !clamp {
@@ -778,11 +871,251 @@ func checkRetained(r *Run, rc *RuleCtx, hot []*ssa.Function) {
 				rc.Violation(fn, instrPos(st), what+" = "+exprCanon(st.Val), "a reused buffer is resliced from a non-zero start: the capacity in front of the new start is lost for good, so the next value that needs the full size (an IPv6 address after an IPv4-mapped one) reallocates although the destination was warm")
 			case der && clamp:
 				rc.Violation(fn, instrPos(st), what+" = "+exprCanon(st.Val), "a three-index reslice clamps the capacity of a reused buffer: the next larger value (e.g. an IPv6 address after an IPv4 one) has to reallocate although the destination was warm")
-			case !der:
+			case !der && !grown:
 				rc.Violation(fn, instrPos(st), what+" = "+exprCanon(st.Val), "the warm backing array of a reused buffer is dropped/replaced on a path that reports success: the next operation that appends onto it allocates again")
 			}
 		})
 	}
+}
+
+// capInsufficient: block b is only entered when a capacity test of the retained slice field fv (or, with
+// fv nil, of any retained slice) has just failed - `cap(x) < n` holds on entry.  An allocation there is
+// growth: it does not happen once the buffer has held a value at least as large.
+func capInsufficient(b *ssa.BasicBlock, fv *types.Var) bool {
+	isCapOf := func(v ssa.Value) bool {
+		c, ok := v.(*ssa.Call)
+		if !ok || !isBuiltinCall(c, "cap") || !retainedBase(c.Call.Args[0], 0) {
+			return false
+		}
+		if fv == nil {
+			return true
+		}
+		f, _, ok := rootField(c.Call.Args[0], 0)
+		return ok && f == fv
+	}
+	for _, ec := range allEntryConds(b) {
+		cond, val := ec.Cond, ec.Val
+		for {
+			u, ok := cond.(*ssa.UnOp)
+			if !ok || u.Op != token.NOT {
+				break
+			}
+			cond, val = u.X, !val
+		}
+		bo, ok := cond.(*ssa.BinOp)
+		if !ok {
+			continue
+		}
+		op := bo.Op
+		if !val {
+			switch op {
+			case token.LSS:
+				op = token.GEQ
+			case token.LEQ:
+				op = token.GTR
+			case token.GTR:
+				op = token.LEQ
+			case token.GEQ:
+				op = token.LSS
+			default:
+				continue
+			}
+		}
+		// cap(x) < y, cap(x) <= y, y > cap(x), y >= cap(x)
+		if (op == token.LSS || op == token.LEQ) && isCapOf(bo.X) || (op == token.GTR || op == token.GEQ) && isCapOf(bo.Y) {
+			return true
+		}
+	}
+	return false
+}
+
+// growthMakes: the make([]T, ...) instructions a compiler diagnostic at file:line of fn can refer to - those
+// on that line in fn itself, or in the module functions called on that line (the compiler reports an
+// allocation of an inlined callee at the call site).
+func growthMakes(p *Prog, fn *ssa.Function, file string, line int) []*ssa.MakeSlice {
+	var out []*ssa.MakeSlice
+	seen := map[*ssa.Function]bool{}
+	var all func(g *ssa.Function, depth int)
+	all = func(g *ssa.Function, depth int) {
+		if g == nil || seen[g] || g.Blocks == nil || depth > 3 || !p.isLibFn(g) {
+			return
+		}
+		seen[g] = true
+		eachInstr(g, func(b *ssa.BasicBlock, i int, in ssa.Instruction) {
+			if mk, ok := in.(*ssa.MakeSlice); ok {
+				out = append(out, mk)
+			}
+			if c, ok := in.(ssa.CallInstruction); ok {
+				all(c.Common().StaticCallee(), depth+1)
+			}
+		})
+	}
+	fns := append([]*ssa.Function{fn}, fn.AnonFuncs...)
+	for _, g := range fns {
+		eachInstr(g, func(b *ssa.BasicBlock, i int, in ssa.Instruction) {
+			ip := instrPos(in)
+			if !ip.IsValid() {
+				return
+			}
+			ps := p.Fset.Position(ip)
+			if ps.Line != line || !strings.HasSuffix(ps.Filename, file) {
+				return
+			}
+			if mk, ok := in.(*ssa.MakeSlice); ok {
+				out = append(out, mk)
+			}
+			if c, ok := in.(ssa.CallInstruction); ok {
+				all(c.Common().StaticCallee(), 1)
+			}
+		})
+	}
+	return out
+}
+
+// storedIntoRetained: the made slice (possibly resliced) is what a retained slice field is set to.
+func storedIntoRetained(mk *ssa.MakeSlice) bool {
+	seen := map[ssa.Value]bool{}
+	var walk func(v ssa.Value, depth int) bool
+	walk = func(v ssa.Value, depth int) bool {
+		if depth > 6 || seen[v] {
+			return false
+		}
+		seen[v] = true
+		for _, ref := range *v.Referrers() {
+			switch x := ref.(type) {
+			case *ssa.Store:
+				if x.Val == v {
+					if fa, ok := x.Addr.(*ssa.FieldAddr); ok {
+						if al, isLocal := fa.X.(*ssa.Alloc); !isLocal || al.Heap {
+							return true
+						}
+					}
+				}
+			case *ssa.Slice:
+				if x.X == v && walk(x, depth+1) {
+					return true
+				}
+			case *ssa.Phi:
+				if walk(x, depth+1) {
+					return true
+				}
+			}
+		}
+		return false
+	}
+	return walk(mk, 0)
+}
+
+// scratchCoveredByAdd: the HMAC is summed into the spare capacity behind Raw at a point where Raw is
+// grow(n)'d, and every success path then appends an attribute through (*Message).Add such that the
+// final length 20 + Length + 4 + len(value) exceeds n by at least the digest size: a buffer that has
+// held the finished message once (steady state) has the digest's room free behind n.
+func scratchCoveredByAdd(p *Prog, fn *ssa.Function, hm *ssa.Call) (string, bool) {
+	view, ok := hm.Call.Args[2].(*ssa.Slice)
+	if !ok {
+		return "", false
+	}
+	ld, ok := view.X.(*ssa.UnOp)
+	if !ok || ld.Op != token.MUL {
+		return "", false
+	}
+	n := reachingGrow(p, ld)
+	if n == nil {
+		return "", false
+	}
+	add := p.Meth("Message", "Add")
+	msg := p.Named("Message")
+	if add == nil || msg == nil {
+		return "", false
+	}
+	lenF := FieldVar(msg, "Length")
+	if lenF == nil {
+		return "", false
+	}
+	digest := int64(20)
+	for _, pk := range p.Pkgs {
+		for path, imp := range pk.Imports {
+			if path == "crypto/sha1" && imp.Types != nil {
+				if c, ok := imp.Types.Scope().Lookup("Size").(*types.Const); ok {
+					if v, exact := constant.Int64Val(c.Val()); exact {
+						digest = v
+					}
+				}
+			}
+		}
+	}
+	// the Add calls behind the sum
+	var adds []*ssa.Call
+	eachInstr(fn, func(b *ssa.BasicBlock, i int, in ssa.Instruction) {
+		if c, ok := in.(*ssa.Call); ok && callsFn(c, add) && instrDominates(hm, c) {
+			adds = append(adds, c)
+		}
+	})
+	if len(adds) != 1 {
+		return "", false
+	}
+	a := adds[0]
+	// every success return behind the sum lies behind the Add
+	idx := errorResultIndex(fn)
+	for _, ret := range returnsOf(fn) {
+		if !instrDominates(hm, ret) {
+			continue
+		}
+		if idx >= 0 {
+			c := &PathCtx{K: newKeyer(), assign: map[string]bool{}, phiSel: map[*ssa.Phi]ssa.Value{}, P: p}
+			if c.NilState(ret.Results[idx]) == -1 {
+				continue
+			}
+		}
+		if !instrDominates(a, ret) {
+			return "", false
+		}
+	}
+	// the Length the Add starts from: the last store of the field that dominates it
+	var last *ssa.Store
+	eachInstr(fn, func(b *ssa.BasicBlock, i int, in ssa.Instruction) {
+		if st, ok := in.(*ssa.Store); ok && fieldOfAddr(st.Addr) == lenF && instrDominates(st, a) {
+			if last == nil || instrDominates(last, st) {
+				last = st
+			}
+		}
+	})
+	if last == nil {
+		return "", false
+	}
+	// nothing between that store and the Add writes Length
+	bad := false
+	eachInstr(fn, func(b *ssa.BasicBlock, i int, in ssa.Instruction) {
+		c, ok := in.(ssa.CallInstruction)
+		if !ok || in == ssa.Instruction(a) || !instrDominates(last, in) || !instrDominates(in, a) {
+			return
+		}
+		if sc := c.Common().StaticCallee(); sc != nil && p.isModuleFn(sc) {
+			if m, unk := modFields(p, sc, map[*ssa.Function]bool{}); m[lenF] || unk {
+				bad = true
+			}
+		} else if sc == nil {
+			if _, isB := c.Common().Value.(*ssa.Builtin); !isB {
+				bad = true
+			}
+		}
+	})
+	if bad {
+		return "", false
+	}
+	le := newLinEval(p)
+	start := le.Eval(n)
+	vl, isC := le.lenOf(a.Call.Args[2]).isConst()
+	if !isC {
+		return "", false
+	}
+	pad := (4 - vl%4) % 4
+	final := le.Eval(last.Val).add(linExpr{C: 20 + 4 + vl + pad, Terms: map[string]int64{}}, 1)
+	room, isC := final.add(start, -1).isConst()
+	if !isC || room < digest {
+		return "", false
+	}
+	return fmt.Sprintf("summed behind grow(%s); the Add that follows on every success path ends the message at %s: %d >= %d bytes behind the scratch start belong to a buffer that has held the finished message once", start, final, room, digest), true
 }
 
 func ownerName(p *Prog, fv *types.Var) string {
